@@ -22,8 +22,8 @@
 From Coq Require Import ZArith List Bool QArith Qcanon Sorted.
 From SG Require Import Base.QcUtil Model.CombiScheme Model.RefTree Model.DimWise Model.DimWiseInterp
      Proofs.SchemeInv Proofs.CombiAbstract Proofs.RefTreeInv Proofs.RefTreeCheck Proofs.DimWiseInv
-     Proofs.DimWiseStripes Proofs.DimWiseCombi Proofs.C03Main Proofs.DimWiseNodal Proofs.DimWiseFuel Proofs.C03Any.
-From SG Require Import Model.DimWiseInstall.
+     Proofs.DimWiseStripes Proofs.DimWiseCombi Proofs.C03Main Proofs.DimWiseNodal Proofs.DimWiseFuel Proofs.C03Any Proofs.DimWiseCacheP.
+From SG Require Import Model.DimWiseInstall Model.DimWiseCache.
 Import ListNotations.
 Open Scope Z_scope.
 
@@ -190,6 +190,25 @@ Theorem C03_every_history : forall n lmin lmax a b o steps st0,
        dw_combi_interp o st a b f x = f x).
 Proof. exact dw_every_history. Qed.
 Print Assumptions C03_every_history.
+
+(* ---------------------------------------------------------------------------------------------------------- *)
+(* the per-step cache max_level_dict (Model/DimWiseCache.v): every sequence of get_max_level queries between two resets returns
+   the uncached values, provided the cache was emptied when the trees changed (refinement_postprocessing, and - since the
+   repair of the re-run defect - initialize_refinement) *)
+Theorem C03_max_level_cache_transparent : forall trees qs c, consistent c trees ->
+  fst (run_queries c trees qs) = map (fun q => get_max_level (nth (fst q) trees []) (snd q)) qs /\
+  consistent (snd (run_queries c trees qs)) trees.
+Proof. exact queries_transparent. Qed.
+Print Assumptions C03_max_level_cache_transparent.
+
+(* the defect the lessons sweep found (finding C03-rerun-stale-max-level-cache, repaired by /repo 143094d): a cache filled in a
+   first run answers a query on the rebuilt trees of a further run on the same object with the stale maximum level (3 instead
+   of 2 at position 2 of dimension 0), so the 1D point sets depended on the previous run *)
+Theorem C03_rerun_without_cache_reset_stale_refuted :
+  let c1 := snd (run_queries [] [tree_run1] [(0%nat, 2%nat)]) in
+  fst (run_queries c1 [tree_run2] [(0%nat, 2%nat)]) = [3] /\
+  fst (run_queries [] [tree_run2] [(0%nat, 2%nat)]) = [2].
+Proof. exact stale_cache_witness. Qed.
 
 (* ---------------------------------------------------------------------------------------------------------- *)
 (* non-vacuity: d = 2, lmin 1, lmax 2, box [0,1] x [-1,1], version 6, boundary off, two refinement steps *)
